@@ -59,12 +59,52 @@ type GroupCfg struct {
 	// consumes the nonces of the assigned members, and the members flagged has_nonce then queue one more (the others
 	// reset their queue).  The allocation rule is the same; the queues' head positions are not 0 any more.
 	Refilled bool `json:"refilled_queues,omitempty"`
+	// MaxSize > 0: after the group became the current group, governance lowers the tss parameter MaxGroupSize to this
+	// value (real tss MsgUpdateParams by the authority), below the size of the existing group.  Membership is unchanged.
+	MaxSize uint64 `json:"tss_max_group_size_lowered_to,omitempty"`
+	// Incoming: a hand-over to a second group with finished key generation is waiting for its execution time
+	// (MsgForceTransitionGroup by the authority; the incoming members were added to bandtss, are active and each has a
+	// queued nonce).  "disjoint": incoming = {Owner, FeePayer}; "overlap": incoming = {current member 0, Owner}.
+	// Until execution only the current group's members are "current-group signing members".
+	Incoming string `json:"incoming_group_waiting_execution,omitempty"`
+}
+
+// incomingAccounts lists the members of the incoming group.
+func (g GroupCfg) incomingAccounts() []bandtesting.Account {
+	switch g.Incoming {
+	case "disjoint":
+		return []bandtesting.Account{bandtesting.Owner, bandtesting.FeePayer}
+	case "overlap":
+		return []bandtesting.Account{memberAccounts()[0], bandtesting.Owner}
+	}
+	return nil
+}
+
+// incomingOnly lists the incoming members that are not members of the current group.
+func (g GroupCfg) incomingOnly() []string {
+	var out []string
+	for _, a := range g.incomingAccounts() {
+		cur := false
+		for i := 0; i < g.N; i++ {
+			cur = cur || memberAccounts()[i].Address.Equals(a.Address)
+		}
+		if !cur {
+			out = append(out, a.Address.String())
+		}
+	}
+	return out
 }
 
 func (g GroupCfg) key() string {
 	k := fmt.Sprintf("%d:%v:%v", g.N, g.Active, g.HasDE)
 	if g.Refilled {
 		k += ":refilled"
+	}
+	if g.MaxSize > 0 {
+		k += fmt.Sprintf(":maxgroupsize=%d", g.MaxSize)
+	}
+	if g.Incoming != "" {
+		k += ":incoming-" + g.Incoming
 	}
 	return k
 }
@@ -110,12 +150,13 @@ var memberAccounts = func() []bandtesting.Account {
 type worker struct {
 	w      *engine.World
 	groups map[int]sdk.Context    // group size -> base with that current group (all members active, no nonce)
+	incom  map[string]sdk.Context // (group size, incoming kind) -> groups[n] plus a forced transition waiting for execution
 	bases  map[string]sdk.Context // (oracle flags, group cfg) -> base
 	secret tss.Scalar
 }
 
 func newWorker() *worker {
-	return &worker{w: engine.NewWorld(), groups: map[int]sdk.Context{}, bases: map[string]sdk.Context{}}
+	return &worker{w: engine.NewWorld(), groups: map[int]sdk.Context{}, incom: map[string]sdk.Context{}, bases: map[string]sdk.Context{}}
 }
 
 func must(err error, what string) {
@@ -177,6 +218,60 @@ func (wk *worker) groupBase(n int) sdk.Context {
 	return ctx
 }
 
+// dkg runs the three key-generation rounds of group gid through the tss message server.
+func (wk *worker) dkg(ctx sdk.Context, gid tss.GroupID, accs []bandtesting.Account) {
+	w := wk.w
+	secrets := make([]tss.Scalar, len(accs))
+	for i := range secrets {
+		s, err := tss.RandomScalar()
+		must(err, "RandomScalar")
+		secrets[i] = s
+	}
+	gc := &tsstestutil.GroupContext{GroupID: gid, Accounts: accs, DEs: make([][]tsstestutil.DEWithPrivateNonce, len(accs)), Secrets: secrets}
+	must(gc.SubmitRound1(ctx, w.App.TSSKeeper), "DKG round 1")
+	must(gc.SubmitRound2(ctx, w.App.TSSKeeper), "DKG round 2")
+	must(gc.SubmitRound3(ctx, w.App.TSSKeeper), "DKG round 3")
+}
+
+// incomingBase extends groupBase(n) by a hand-over that waits for its execution time: the authority proposes a second
+// group (MsgTransitionGroup), its key generation completes, the hand-over signing cannot be created because no current
+// member has a nonce queued at that moment, so that proposal ends as failed while the second group stays ACTIVE in tss;
+// the authority then forces the transition to it (MsgForceTransitionGroup).  The incoming members queue a nonce each.
+func (wk *worker) incomingBase(g GroupCfg) sdk.Context {
+	key := fmt.Sprintf("%d:%s", g.N, g.Incoming)
+	if c, ok := wk.incom[key]; ok {
+		return c
+	}
+	w := wk.w
+	ctx := engine.Fork(wk.groupBase(g.N))
+	engine.DetRandResetTo(uint64(2000 + 10*g.N + len(g.Incoming)))
+	cur := w.App.BandtssKeeper.GetCurrentGroup(ctx).GroupID
+	accs := g.incomingAccounts()
+	var members []string
+	for _, a := range accs {
+		members = append(members, a.Address.String())
+	}
+	authority := authtypes.NewModuleAddress(govtypes.ModuleName).String()
+	exec := ctx.BlockTime().Add(48 * time.Hour)
+	must(w.Tx(ctx, 0, bandtsstypes.NewMsgTransitionGroup(members, 2, exec, authority)).Err, "MsgTransitionGroup (second group)")
+	gid := tss.GroupID(w.App.TSSKeeper.GetGroupCount(ctx))
+	wk.dkg(ctx, gid, accs)
+	if tr, found := w.App.BandtssKeeper.GetGroupTransition(ctx); found {
+		engine.Fatal3("C14 base: proposal to group %d still in progress after key generation (status %s)", gid, tr.Status)
+	}
+	must(w.Tx(ctx, 0, bandtsstypes.NewMsgForceTransitionGroup(gid, exec, authority)).Err, "MsgForceTransitionGroup")
+	tr, found := w.App.BandtssKeeper.GetGroupTransition(ctx)
+	if !found || tr.Status != bandtsstypes.TRANSITION_STATUS_WAITING_EXECUTION || tr.IncomingGroupID != gid || w.App.BandtssKeeper.GetCurrentGroup(ctx).GroupID != cur || cur == 0 {
+		engine.Fatal3("C14 base: forced transition not waiting for execution (found %v, %+v, current %d)", found, tr, cur)
+	}
+	for _, a := range g.incomingOnly() {
+		de := tsstestutil.GenerateDE(wk.secret)
+		must(w.Tx(ctx, 0, tsstypes.NewMsgSubmitDEs([]tsstypes.DE{de.PubDE}, a)).Err, "MsgSubmitDEs (incoming member)")
+	}
+	wk.incom[key] = ctx
+	return ctx
+}
+
 // base returns the state for (oracle-active flags, group configuration): validators activated by
 // MsgActivate, members deactivated by the bandtss keeper's DeactivateMember (the function the
 // module itself calls; there is no message for it), nonces queued by MsgSubmitDEs.
@@ -186,7 +281,11 @@ func (wk *worker) base(oact [3]bool, g GroupCfg) sdk.Context {
 		return c
 	}
 	w := wk.w
-	ctx := engine.Fork(wk.groupBase(g.N))
+	parent := wk.groupBase(g.N)
+	if g.Incoming != "" {
+		parent = wk.incomingBase(g)
+	}
+	ctx := engine.Fork(parent)
 	for i, on := range oact {
 		if on {
 			res := w.Tx(ctx, 0, oracletypes.NewMsgActivate(bandtesting.Validators[i].ValAddress))
@@ -223,8 +322,11 @@ func (wk *worker) base(oact [3]bool, g GroupCfg) sdk.Context {
 				must(res.Err, "MsgSubmitDEs")
 			}
 			// sanity: the stores say what the configuration says
-			m, err := w.App.TSSKeeper.GetMemberByAddress(ctx, gid, acc.Address.String())
-			must(err, "GetMemberByAddress")
+			m, err := w.App.TSSKeeper.GetMember(ctx, gid, tss.MemberID(i+1))
+			must(err, "tss GetMember")
+			if m.Address != acc.Address.String() {
+				engine.Fatal3("C14 base: member %d of group %d is %s, want %s", i+1, gid, m.Address, acc.Address)
+			}
 			bm, err := w.App.BandtssKeeper.GetMember(ctx, acc.Address, gid)
 			must(err, "bandtss GetMember")
 			q := w.App.TSSKeeper.GetDEQueue(ctx, acc.Address)
@@ -238,6 +340,12 @@ func (wk *worker) base(oact [3]bool, g GroupCfg) sdk.Context {
 					i, m.IsActive, bm.IsActive, q.Head, q.Tail, g.key())
 			}
 		}
+	}
+	// last step, so that everything above happened while the parameter still had its old value
+	if g.MaxSize > 0 {
+		p := w.App.TSSKeeper.GetParams(ctx)
+		p.MaxGroupSize = g.MaxSize
+		must(w.Tx(ctx, 0, tsstypes.NewMsgUpdateParams(authtypes.NewModuleAddress(govtypes.ModuleName).String(), p)).Err, "tss MsgUpdateParams")
 	}
 	wk.bases[key] = ctx
 	return ctx
@@ -964,6 +1072,14 @@ func (wk *worker) judgeTss(t Tuple, pre, post *snap, v *verdict) {
 		}
 	}
 	allowed := map[string]bool{fcAddr: true, distrAddr: true}
+	incomingPaid := false
+	for _, a := range t.Group.incomingOnly() {
+		allowed[a] = true
+		if d := sub(post.balance(a), pre.balance(a)); !d.isZero() {
+			incomingPaid = true
+			v.violate("tss-incoming-group-member-paid", "%s is a member of the incoming group only (hand-over not executed yet) but received %s | tuple: %s", a, d, t)
+		}
+	}
 	for _, a := range valid {
 		allowed[a] = true
 	}
@@ -1027,6 +1143,17 @@ func (wk *worker) judgeTss(t Tuple, pre, post *snap, v *verdict) {
 		v.nontrivial = true
 		if len(excluded) > 0 {
 			v.saw("tss:excluded-member-gets-0")
+		}
+		if t.Group.Incoming != "" && !incomingPaid {
+			v.saw("tss:incoming-group-member-gets-0")
+		}
+		if t.Group.MaxSize > 0 {
+			for i := int(t.Group.MaxSize); i < t.Group.N; i++ {
+				if t.Group.Active[i] && t.Group.HasDE[i] {
+					v.saw("tss:member-above-lowered-max-group-size-paid")
+					break
+				}
+			}
 		}
 	} else {
 		v.saw("tss:member-share-is-zero")
